@@ -15,6 +15,9 @@ C30  spec/WsWriter/WsWriter.tla models NextWriter / Write / WriteString / ReadFr
      NextWriter and Close): Write, WriteString, io.Copy = ReadFrom from a source that is not an io.WriterTo and returns
      (0, io.EOF) separately ("r"), the last bytes TOGETHER with io.EOF ("re"), either in chunks of a few bytes
      ("rc", "rce"); on a flate-wrapped writer io.Copy / io.WriteString fall back to Write (also replayed).
+     Length-encoding boundaries (simedge.cfg, both tiers): messages of 125/126/127/65535/65536/65537 bytes in one call,
+     prepared and streamed, buffers 125/126/4096/65536 so that full non-final frames are exactly 125/126/65536 bytes;
+     the run is inconclusive unless frames of exactly 125, 126, 65535 and 65536 bytes were on the wire.
      Blocking assumption (spec/WsWriter/WsWriterPool.tla + harness mode `stall`): a frame handed to the network stays
      this connection's frame while the write is pending -- net.Conn.Write parked on entry before it looks at its
      argument (`netwrite`), or the final frame queued behind the write mutex held by a stalled ping (`mutex`) --
@@ -53,6 +56,7 @@ known deviations above so that they are not masked by them:
   m7 flushFrame: FIN also set on a non-final fragment that exactly fills the buffer   wire:continuation-without-message
   s1 (seeded) flushFrame: endMessage (pool Put) BEFORE c.write of the final frame      pool:stalled-write-mixed, pool:queued-write-mixed
   s2 (seeded) ReadFrom: bytes returned together with io.EOF not counted                roundtrip-parser:bytes / :count, write:short-count
+  s4 (seeded, reader) advanceFrame: 64-bit length form rejected for payload == 65536    roundtrip-reader:count (simedge scripts)
   (a first version of m6 that made prepared messages never compress, and an ncopy off-by-one that only changes the
    fragment sizes, are -- correctly -- reported as drift, exit 2: the property still holds)
  C31 (all caught, exit 1):
@@ -99,7 +103,8 @@ def c30(c):
     c.cov['stall_cases'] = st['completed']
     c.cov.setdefault('replay_counters', {}).update({'stall:' + k: v for k, v in st['counters'].items()})
     # 2. spec -> code: simulated scripts (every state checked against Roundtrip by TLC) replayed into a real Conn
-    runs = [('sim.cfg', 300)] if quick else [('sim.cfg', 5000), ('simbig.cfg', 5000)]
+    # simedge.cfg: the payload-length encoding boundaries (125/126/127, 65535/65536/65537; buffers 125/126/65536)
+    runs = [('sim.cfg', 300), ('simedge.cfg', 90)] if quick else [('sim.cfg', 5000), ('simbig.cfg', 5000), ('simedge.cfg', 1500)]
     ops = 0
     for cfg, n in runs:
         s = c.tlc('WsWriter', 'WsWriterSim', cfg, simulate=n, depth=15, timeout=2400)
@@ -116,6 +121,11 @@ def c30(c):
         c.cov['distinct_nontrivial'] += res['nontrivial']
         c.cov['samples'] += (res['samples'] or [])[:2]
         c.cov.setdefault('replay_counters', {}).update({cfg + ':' + k: v for k, v in res['counters'].items()})
+        if cfg == 'simedge.cfg' and not (res.get('violations') or res.get('drifts')):
+            missing = [k for k in ('wire_frames_len_125', 'wire_frames_len_126', 'wire_frames_len_65535', 'wire_frames_len_65536')
+                       if res['counters'].get(k, 0) < 3]
+            if missing:
+                raise vf.Inconclusive('boundary scripts did not put enough boundary-length frames on the wire: %s' % missing)
     c.cov['api_calls_replayed'] = ops
     c.cov['rule'] = ('scripts: TLC -simulate of WsWriterSim (operation by slot, arguments by state hash), 14 API calls each, write buffer sizes '
                      '16/130/1024 (quick) plus 125/126/4096/65535/65536 (thorough), chunk sizes 0,1,B-1,B,B+1,2B,2B+1, the large-write threshold '
